@@ -420,6 +420,11 @@ impl<'a> ExpressionEvaluator<'a> {
                             return Ok(vec![DataType::Bool(Bool(true))]);
                         };
                     }
+                    // IS / IS NOT are never NULL: `NULL IS TRUE` is FALSE, `NULL IS NOT TRUE` is TRUE
+                    BinaryOperator::Is => return Ok(vec![DataType::Bool(Bool(left == right))]),
+                    BinaryOperator::IsNot => {
+                        return Ok(vec![DataType::Bool(Bool(left != right))]);
+                    }
                     _ => return Ok(vec![DataType::Null]),
                 }
             }
